@@ -2,6 +2,7 @@
 from lib.facts import norm, direct_place, const_int, origins, place_fields, nophi
 from lib import tables
 
+INLINE = True      # crate-local helpers the rules do not know by name are inlined into their callers (lib/inline.py)
 EXPLANATION = (
     "R17.1 label, index and runner come from one place: in run_bench_entry's Args arm the label given to run_bench, the "
     "pointer given to slice_ptr_index and the loop variable are the same value; the base slice is arg_names() of the "
